@@ -29,6 +29,9 @@ def literal_of(kind, v):
     return None
 
 
+OPASSIGN_CARRIERS = ["opassign-variable", "opassign-element", "opassign-field", "opassign-map-entry", "opassign-captured"]
+
+
 def cell_program(op, lk, a, rk, b, carrier="variable"):
     """carrier: how the two operands reach the operator (a plain variable, a list element, an object field, a parameter, a variable
     captured by a closure, a function result, a map value, an unwrapped optional)"""
@@ -51,6 +54,16 @@ def cell_program(op, lk, a, rk, b, carrier="variable"):
         lines += [f"ma = map[str, {lk}]", 'ma["k"] = a', f"mb = map[str, {rk}]", 'mb["k"] = b', f'print (get ma["k"]) {op} (get mb["k"])']
     elif carrier == "optional":
         lines += [f"oa: {lk}? = a", f"ob: {rk}? = b", f"print (get oa) {op} (get ob)"]
+    elif carrier == "opassign-variable":
+        lines += [f"a {op}= b", "print a"]
+    elif carrier == "opassign-element":
+        lines += [f"la: [{lk}...] = [a, a]", f"la[1] {op}= b", "print la[1]"]
+    elif carrier == "opassign-field":
+        lines = ["class P {", f"\tx: {lk}", f"\tconstructor(self, x: {lk}) {{", "\t\tself.x = x", "\t}", "}"] + lines + ["pp = P(a)", f"pp.x {op}= b", "print pp.x"]
+    elif carrier == "opassign-map-entry":
+        lines += [f"ma = map[str, {lk}]", 'ma["k"] = a', f'ma["k"] {op}= b', 'print get ma["k"]']
+    elif carrier == "opassign-captured":
+        lines += ["fc = fn() {", f"\ta {op}= b", "}", "fc()", "print a"]
     elif carrier == "literal":
         la, lb = literal_of(lk, a), literal_of(rk, b)
         if la is None or lb is None:
@@ -111,6 +124,7 @@ class C05(Check):
     rule = ("every cell (operator in 16 binary operators, left kind, right kind in {int,bigint,float,byte}, left value, "
             "right value from the per-kind boundary sets), operands reaching the operator through run-time variables and - for 2 (thorough 3) values per kind - "
             "through 8 other carriers (literal operands evaluated by the compiler, list element, object field incl. inside a method, parameter, captured variable, function result, map value, unwrapped optional); "
+            "the five arithmetic operators also as OP-ASSIGNMENT onto a variable, a list element, an object field, a map entry and a captured variable (8 values per kind, cells whose promoted kind is the target's kind); "
             "unary minus on every int/bigint/float value and `!` on both booleans.  Non-trivial = the compiler accepts the "
             "cell; distinct = distinct (op, kinds, values).")
     assumptions = ["dev profile (integer-overflow checks on), as the repository's own suite",
@@ -149,7 +163,15 @@ class C05(Check):
                 for car in CARRIERS:
                     yield ("car", car) + c[1:]
 
-        ls = [("L0-unary", list(unary())), ("L1-3-values", list(cells(3))), ("L1b-values-through-8-carriers", carried(3 if tier == "thorough" else 2)),
+        def opassigned(vals_n):
+            # op-assignment: the target keeps its kind, so only the cells whose promoted kind is the left kind
+            for c in cells(vals_n, ["+", "-", "*", "/", "%"]):
+                _, op, lk, a, rk, b = c
+                if rk == lk or rk == "byte" or lk == "float" or (lk == "bigint" and rk == "int"):
+                    for car in OPASSIGN_CARRIERS:
+                        yield ("car", car) + c[1:]
+
+        ls = [("L0-unary", list(unary())), (f"L1c-op-assignment-onto-variable-element-field-map-entry-captured-{min(nv, 8)}-values", opassigned(min(nv, 8))), ("L1-3-values", list(cells(3))), ("L1b-values-through-8-carriers", carried(3 if tier == "thorough" else 2)),
               (f"L2-{nv}-values", cells(nv))]
         return ls
 
@@ -236,6 +258,10 @@ class C05(Check):
             outcome = f"fail-{res.cls}"
         else:
             want = [N.typed(*exp)] * (2 if (case[0] == "bin" and car == "field") else 1)
+            if case[0] == "bin" and car.startswith("opassign"):
+                got = [g.lstrip("&") for g in got]
+                if exp[0] != lk:
+                    return {"outcome": "opassign-kind-changes", "nontrivial": False, "tags": ["opassign-skip"]}
             ucar = case[4] if case[0] == "un" and len(case) > 4 else None
             if ucar in ("element", "field"):
                 # the operator works on a copy: the element / field read again afterwards still holds the operand
